@@ -12,7 +12,8 @@ RULE = (
     "Conformant streams: encoder output for valid random configurations (C03 generator, frames <= 20 (32) px) with, by a drawn "
     "plan, slice payloads re-packed in place (small / sparse / extreme / huge coefficient values, LD values dangling past the "
     "bounded block, random bounded-block padding bits, random qindex up to 127/255, slack in length fields) and padding/auxiliary "
-    "units with random payload inserted. Only streams the validator accepts are judged. Oracle: the validator is run with "
+    "units with random payload inserted; one shard in four builds streams of 2-3 concatenated sequences, the later ones mostly "
+    "'siblings' of the first (same transform and slice parameters, other picture size / chroma format / coding mode). Only streams the validator accepts are judged. Oracle: the validator is run with "
     "decoder.stream.picture_decode rebound to a recorder of the decoded transform arrays; the Deserialiser's description of the same "
     "bytes is turned by the harness' own model (table lookup of video format, own slice geometry, own dequantiser and DC prediction) "
     "into transform arrays which must equal the recorded ones element-wise, together with the data-unit parse codes/offsets, video "
@@ -98,19 +99,28 @@ def check_state_snapshots(desc, data, col):
 
 
 def check(cf, specs, nums, plan, col):
+    return check_parts([(cf, specs, nums, plan)], col)
+
+
+def check_parts(parts, col):
+    """parts: one (cf, specs, nums, plan) per sequence; the sequences are serialised separately and concatenated"""
     from vc2_conformance.encoder.exceptions import UnsatisfiableCodecFeaturesError
 
-    data = DEC.case_json(cf, specs, nums, plan)
+    data = DEC.case_json(*parts[0]) if len(parts) == 1 else {"multi": [DEC.case_json(*p) for p in parts]}
     facts = {"outcome": "judged", "nz": 0}
-    try:
-        blob, rfacts, pictures = DEC.build_stream(cf, specs, nums, plan)
-    except UnsatisfiableCodecFeaturesError:
-        facts["outcome"] = "rejected_by_encoder"
-        return facts
-    except Exception as e:
-        facts["outcome"] = "not_serialisable:" + type(e).__name__
-        return facts
-    facts.update(rfacts)
+    blob = b""
+    for part in parts:
+        try:
+            b, rfacts, pictures = DEC.build_stream(*part)
+        except UnsatisfiableCodecFeaturesError:
+            facts["outcome"] = "rejected_by_encoder"
+            return facts
+        except Exception as e:
+            facts["outcome"] = "not_serialisable:" + type(e).__name__
+            return facts
+        blob += b
+        for k, v in rfacts.items():
+            facts[k] = facts.get(k) or v
     records = []
     try:
         with DEC.capture_decoder_state(records):
@@ -134,8 +144,9 @@ def check(cf, specs, nums, plan, col):
     for pi, (pic, rec) in enumerate(zip(pics, records)):
         try:
             model, vp, params = DEC.model_transforms(pic)
-        except ValueError as e:
-            col.fail("coefficient-count", data, "picture %d: %s" % (pi, e))
+        except (ValueError, IndexError, KeyError) as e:
+            # the deserialised slices do not fit the geometry implied by the deserialised headers
+            col.fail("coefficient-count", data, "picture %d: deserialised slice contents do not fit the picture geometry (%s: %s)" % (pi, type(e).__name__, e))
             return facts
         if pic["picture_number"] != rec["params"]["picture_number"]:
             col.fail("picture-number", data, "picture %d: deserialiser number %r, validator %r" % (pi, pic["picture_number"], rec["params"]["picture_number"]))
@@ -173,13 +184,32 @@ def body(case, col):
         col.count(facts["outcome"])
 
 
+def body_multi(parts, col):
+    facts = check_parts(parts, col)
+    lab = ["multi_sequence", "sequences:%d" % len(parts), facts["outcome"].split(":")[0]]
+    sibling = any(all(p[0][k] == parts[0][0][k] for k in ("slices_x", "slices_y", "dwt_depth", "dwt_depth_ho", "wavelet_index"))
+                  and p[0]["video_parameters"] != parts[0][0]["video_parameters"] for p in parts[1:])
+    if sibling:
+        lab.append("sibling_formats")
+    col.case(key=tuple((G.config_key(p[0]), tuple(p[1]), repr(p[3])) for p in parts),
+             nontrivial=facts["outcome"] == "judged" and facts["nz"] >= 2, labels=lab,
+             sample=lambda: {"multi": [DEC.case_json(*p) for p in parts]})
+    if ":" in facts["outcome"]:
+        col.count(facts["outcome"])
+
+
 def shards(tier):
     return list(range(16 if tier == "quick" else 64))
 
 
 def run_shard(spec, ctx):
+    if ctx.shard_index % 4 == 1:
+        # multi-sequence streams (one deserialiser / one validator state across sequences of different formats)
+        return run_given(DEC.multi_cases(thorough=ctx.thorough), body_multi, ctx, ctx.pick(60, 130))
     run_given(DEC.cases(thorough=ctx.thorough), body, ctx, ctx.pick(120, 260))
 
 
 def replay(data, col):
+    if "multi" in data:
+        return body_multi([DEC.case_from_json(d) for d in data["multi"]], col)
     body(DEC.case_from_json(data), col)
